@@ -7,11 +7,11 @@ Import ListNotations.
 Open Scope Z_scope.
 
 Inductive case :=
-(* String(x): text, do all ToString routes agree, bits of Number(text); big = otto's Log10 test *)
-| CStr (bits : Z) (big : bool) (obs : res) (same : bool) (back : Z)
+(* String(x): text, do all ToString routes agree, bits of Number(text); intlit = x was written as an integer literal *)
+| CStr (bits : Z) (intlit : bool) (obs : res) (same : bool) (back : Z)
 (* x.toString(r), r = None for undefined, else the integer passed *)
-| CRadix (bits : Z) (r : option Z) (big : bool) (obs : res)
-| CFixed (bits f : Z) (big : bool) (obs : res)
+| CRadix (bits : Z) (r : option Z) (intlit : bool) (obs : res)
+| CFixed (bits f : Z) (obs : res)
 | CExp (bits : Z) (f : option Z) (obs : res)
 | CPrec (bits p : Z) (obs : res)
 (* Number(s): bits; do Number(s), +s, s*1, s-0 agree *)
@@ -23,7 +23,7 @@ Inductive case :=
 | CLit (s : list Z) (obs : option Z)
 (* print then parse in one script: 0 parseInt(x.toString(a), a), 1 parseFloat(String(x)),
    2 Number(x.toExponential(a)), 3 Number(x.toFixed(a)), 4 Number(x.toPrecision(a)) *)
-| CChain (kind bits a : Z) (big : bool) (obs : Z).
+| CChain (kind bits a : Z) (obs : Z).
 
 Definition res_eqb (a b : res) : bool :=
   match a, b with
@@ -80,22 +80,23 @@ Definition is_inf (bits : Z) : bool := (bits =? pinf_bits) || (bits =? ninf_bits
    13 parseInt beyond 2^63 accumulates in float64
    14 parseFloat deviations
    15 hex literal beyond 2^63 accumulates in float64
-   16 legacy octal literal beyond 2^63 is read as decimal *)
+   16 legacy octal literal beyond 2^63 is read as decimal
+   17 String(x) of a number written as an integer literal prints every digit (int64 payload) *)
 
 Definition verdict (c : case) : Z * Z :=
   match c with
-  | CStr bits big obs same back =>
-      let md := opt_res (value_string big bits) in
+  | CStr bits intlit obs same back =>
+      let md := opt_res (value_string_k intlit bits) in
       let sp := opt_res (num_to_string bits) in
       let back_of (r : res) := match r with RStr s => str_to_number s | _ => nan_bits end in
       let eqb a b := res_eqb (fst (fst a)) (fst (fst b)) && Bool.eqb (snd (fst a)) (snd (fst b)) && (snd a =? snd b) in
       match md, sp with
       | RNone, _ | _, RNone => declined
       | _, _ => judge eqb (obs, same, back) (md, true, back_of md)
-                      (sp, true, if bits =? nzero_bits then 0 else bits) 1
+                      (sp, true, if bits =? nzero_bits then 0 else bits) (if intlit then 17 else 1)
       end
-  | CRadix bits r big obs =>
-      let md := m_to_string big bits r in
+  | CRadix bits r intlit obs =>
+      let md := m_to_string_k intlit bits r in
       let rr := match r with None => 10 | Some r => r end in
       let sp := if (rr <? 2) || (36 <? rr) then RErr 3
                 else if rr =? 10 then opt_res (num_to_string bits)
@@ -106,13 +107,13 @@ Definition verdict (c : case) : Z * Z :=
                                | _ => RStr []
                                end
                      end in
-      let cls := if rr =? 10 then 1 else match to_radix_int bits rr with Some _ => 2 | None => 3 end in
+      let cls := if rr =? 10 then (if intlit then 17 else 1) else match to_radix_int bits rr with Some _ => 2 | None => 3 end in
       match md, sp with
       | RNone, _ | _, RNone => declined
       | _, _ => judge res_eqb obs md sp cls
       end
-  | CFixed bits f big obs =>
-      let md := m_to_fixed big bits f in
+  | CFixed bits f obs =>
+      let md := m_to_fixed bits f in
       let sp := to_fixed bits f in
       match md, sp with
       | RNone, _ | _, RNone => declined
@@ -120,12 +121,7 @@ Definition verdict (c : case) : Z * Z :=
       end
   | CExp bits f obs =>
       let md := m_to_exponential bits f in
-      let sp0 := to_exponential bits f in
-      (* 15.7.4.6: an implementation may accept fractionDigits above 20 *)
-      let sp := match f, md with
-                | Some fd, RStr _ => if (20 <? fd) && negb (is_inf bits) then md else sp0
-                | _, _ => sp0
-                end in
+      let sp := to_exponential bits f in
       let cls := if is_inf bits then 7 else if res_eqb (res_unpad md) sp then 6 else 8 in
       match md, sp with
       | RNone, _ | _, RNone => declined
@@ -133,11 +129,7 @@ Definition verdict (c : case) : Z * Z :=
       end
   | CPrec bits p obs =>
       let md := m_to_precision bits p in
-      let sp0 := to_precision bits p in
-      let sp := match md with
-                | RStr _ => if (21 <? p) && negb (is_inf bits) then md else sp0
-                | _ => sp0
-                end in
+      let sp := to_precision bits p in
       match md, sp with
       | RNone, _ | _, RNone => declined
       | _, _ => judge res_eqb obs md sp (if is_inf bits then 7 else 9)
@@ -171,22 +163,22 @@ Definition verdict (c : case) : Z * Z :=
                  end in
       judge Z.eqb obs md sp cls
   | CPFloat s obs => judge Z.eqb obs (m_parse_float s) (parse_float s) 14
-  | CChain kind bits a big obs =>
+  | CChain kind bits a obs =>
       let via (f : list Z -> Z) (r : res) : option Z :=
         match r with RStr t => Some (f t) | RErr _ => Some nan_bits | RNone => None end in
       let abits := encode_int_or_nan a in
       let '(md, sp, cls) :=
-        if kind =? 0 then (via (fun t => m_parse_int t abits) (m_to_string big bits (Some a)),
+        if kind =? 0 then (via (fun t => m_parse_int t abits) (m_to_string bits (Some a)),
                            match to_radix_int bits a with
                            | Some t => Some (parse_int t abits)
                            | None => match decode bits with DFin _ _ _ => None | _ => Some nan_bits end
                            end,
                            match to_radix_int bits a with Some _ => 2 | None => 3 end)
-        else if kind =? 1 then (via m_parse_float (opt_res (value_string big bits)),
+        else if kind =? 1 then (via m_parse_float (opt_res (value_string bits)),
                                 via parse_float (opt_res (num_to_string bits)), 1)
         else if kind =? 2 then (via m_parse_number (m_to_exponential bits (Some a)),
                                 via str_to_number (to_exponential bits (Some a)), if is_inf bits then 7 else 8)
-        else if kind =? 3 then (via m_parse_number (m_to_fixed big bits a),
+        else if kind =? 3 then (via m_parse_number (m_to_fixed bits a),
                                 via str_to_number (to_fixed bits a), if bits =? nzero_bits then 5 else 4)
         else (via m_parse_number (m_to_precision bits a), via str_to_number (to_precision bits a), 9) in
       match md, sp with
